@@ -92,7 +92,7 @@ Definition enc_subs (l : list (bytes * N)) : bytes :=
 Definition enc_topics (l : list bytes) : bytes := flat_map w_str l.
 
 (* guard of Publish.EncodeTo: [length > MaxMessageSize] *)
-Definition publish_too_large (length : N) : bool := MaxMessageSize <? length.
+Definition publish_too_large (length : N) : bool := bodyRoom <? length.
 
 Definition encode (p : packet) : res merr bytes :=
   match p with
